@@ -246,6 +246,11 @@ def formCat (d nc : Nat) :
 
 end extrema
 
+/-- a lower-level envelope as the next level reads it (`dct[case]['extreme'][drm]`: it has the per-case
+columns, its `ext`, `ext_x`, `maxcase`, `mincase` are the rows' `cur`) -/
+def accToCat {α X Lb : Type} (a : Acc α X Lb) : Cat α X Lb :=
+  ⟨a.labels, a.hasX, true, a.rows.map (·.cur)⟩
+
 /-! ### the by-label reference: what the row of label `l` should hold -/
 section bylabel
 variable {α X Lb : Type} [LT α] [DecidableLT α] [DecidableEq Lb]
